@@ -362,7 +362,7 @@ def check_C14(tier, seed, t0):
                              'FlatSet-backed SmallSet tapes with RELOCATE; non-trivial = relocation followed by >=3 mutating ops', True, crash_class_codes=[28]))
     parts.append(interp_part('C14', 'flatset_histories', fs_jobs(fsn, cases, maxlen), seed,
                              'FlatSet tapes with RELOCATE; non-trivial = relocation followed by >=3 mutating ops', True, crash_class_codes=[29]))
-    parts.append(enum_part('C14', 'static_trait_table', [enum_unit('static_c14', 'targets/static_c14.cpp'), enum_unit('alloc_c06', 'targets/alloc_c06.cpp')], seed, tier,
+    parts.append(enum_part('C14', 'static_trait_table', static_units(), seed, tier,
                            'converse part: 15 element types (incl. std::string, opted-out, nested pairs, 2-byte non-relocatable) x 7 comparators (std::less, trivially copyable with state, '
                            'declared relocatable, self-pointing, std::function, empty non-relocatable x2): the trait of the element/comparator and the claim of vector, SmallVector, '
                            'FixedCapacityVector, FlatSet over vector/SmallVector, SmallSet over FlatSet/std::set against values written down per part'))
@@ -488,10 +488,16 @@ def check_C09(tier, seed, t0):
                   ASSUME_COMMON + ['single faults only; element moves are noexcept (throwing moves are not demanded)', 'strong guarantee is not demanded for single-pass input ranges'], t0)
 
 
-def enum_unit(name, src, std='17', kind='asan', extra=None, defines=None):
+def enum_unit(name, src, std='17', kind='asan', extra=None, defines=None, compiler=None):
     d = dict(NONSTD)
     d.update(defines or {})
-    return D.Unit(name, src, d, std=std, kind=kind, engine=False, extra=extra)
+    return D.Unit(name, src, d, std=std, kind=kind, engine=False, extra=extra, compiler=compiler)
+
+
+def static_units():
+    """the trait tables of C14 / C17: g++ 12 and, as a second opinion on every static_assert-like fact, clang++ 14"""
+    return [enum_unit('static_c14', 'targets/static_c14.cpp'), enum_unit('alloc_c06', 'targets/alloc_c06.cpp'),
+            enum_unit('static_c14_clang', 'targets/static_c14.cpp', compiler='clang++'), enum_unit('static_c14_clang20', 'targets/static_c14.cpp', std='20', compiler='clang++')]
 
 
 def enum_part(prop, name, units, seed, tier, rule, crash_is_violation=True, exhaustive=True, extra_args=None, shards=1):
@@ -609,7 +615,7 @@ def check_C17(tier, seed, t0, only=None):
     cov = {'evaluations': r['evaluated'], 'distinct_nontrivial': nt * nstd if not r['bad'] else nt * nstd, 'rule': C17_RULE, 'samples': samples,
            'rows_per_standard': len(r['rows']), 'standards': r['stds'], 'mismatches': len(r['bad']), 'exhaustive': False}
     part = Part('static_matrix', cov, viol, r['wall'])
-    part2 = enum_part('C17', 'comparator_and_pair_trait_table', [enum_unit('static_c14', 'targets/static_c14.cpp'), enum_unit('alloc_c06', 'targets/alloc_c06.cpp')], seed, tier,
+    part2 = enum_part('C17', 'comparator_and_pair_trait_table', static_units(), seed, tier,
                       'trait table over element types x comparator types (see C14 static part): each container typedef is the conjunction of its parts')
     part2.coverage['exhaustive'] = False
     return finish('C17', tier, seed, 'exploration', [part, part2], C17_RULE,
@@ -716,7 +722,7 @@ def all_units():
         us += [vec_unit(n, s) for n in C.VEC_MULTISTD]
     us += [fs_unit(n) for n, _ in C.FS_CONFIGS]
     us += [fault_unit(n) for n, _ in FAULT_CONFIGS] + [fault_unit(n, sd) for n, sd in FAULT_MULTISTD]
-    us += c15_units() + [race_unit(), race_unit('20')] + c13_units() + c13_std_units() + bfs_units() + [enum_unit('exh_c10', 'targets/exh_c10.cpp'), enum_unit('exh_c08', 'targets/exh_c08.cpp'), enum_unit('static_c14', 'targets/static_c14.cpp'), enum_unit('alloc_c06', 'targets/alloc_c06.cpp')]
+    us += c15_units() + [race_unit(), race_unit('20')] + c13_units() + c13_std_units() + bfs_units() + [enum_unit('exh_c10', 'targets/exh_c10.cpp'), enum_unit('exh_c08', 'targets/exh_c08.cpp'), enum_unit('static_c14', 'targets/static_c14.cpp'), enum_unit('alloc_c06', 'targets/alloc_c06.cpp')] + static_units()[2:]
     from . import c16
     us += [c16.unit(cfg, b) for cfg in c16.VEC + c16.FS + c16.SS for b in c16.QUICK_BUILDS if not (cfg in c16.SS and b[0] in ('11', '14'))]
     us += [enum_unit('exh_c12', 'targets/exh_c12.cpp'), enum_unit('growth_c18', 'targets/growth_c18.cpp', kind='plain'),
